@@ -76,11 +76,20 @@ TStatus ==
       <<"C08_state", Ev.exit = 0 /\ \A t \in Shown(S(Ev.sel)) \cap DOMAIN Ev.table :
                          Snap[t] \in {"S", "R", "X", "K"} => Ev.table[t] = Table[t],
                     \E t \in Shown(S(Ev.sel)) : Snap[t] \in {"S", "R", "X", "K"}>>,
+      (* a tracked job the scheduler has no record of any more (purged, or of an earlier pool): the file-based *)
+      (* decision, never the state of some other job                                                          *)
+      <<"C08_gone_job_falls_back", Ev.exit = 0 /\ \A t \in Shown(S(Ev.sel)) \cap DOMAIN Ev.table :
+                         (trk[t] # NoJob /\ jobs[trk[t]].gone) => Ev.table[t] = Table[t],
+                    \E t \in Shown(S(Ev.sel)) : trk[t] # NoJob /\ jobs[trk[t]].gone>>,
       <<"C06_all_completed", (Drained /\ Ev.exit = 0) =>
             \A t \in Cone(W3, conv.sel) \cap Shown(S(Ev.sel)) \cap DOMAIN Ev.table : w.out[t] # {} => Ev.table[t] = "completed",
             Drained /\ \E j \in JobIds : jobs[j].st = "OK">>,
       <<"C05_status_pure", Ev.pure /\ After(Ev, trk, hsh, fs) = <<TRUE, TRUE, TRUE>> >>,
       <<"C18_unchanged_otherwise", EqT(Ev.after.hsh, hsh)>>,
+      (* C17: once the scheduler has carried out a cancellation the target is not shown as submitted or running *)
+      <<"C17_not_live_after_cancel", Ev.exit = 0 /\ \A t \in Shown(S(Ev.sel)) \cap DOMAIN Ev.table :
+                                (trk[t] # NoJob /\ jobs[trk[t]].st = "CA") => Ev.table[t] \notin {"submitted", "running"},
+                            \E t \in Shown(S(Ev.sel)) : trk[t] # NoJob /\ jobs[trk[t]].st = "CA">>,
       (* with hashing on, a target without a record, or whose spec differs from the record, is stale *)
       <<"C18_stale_by_hash", Ev.exit = 0 /\ \A t \in Shown(S(Ev.sel)) \cap DOMAIN Ev.table :
                                 (useHash /\ hsh[t] # specv[t] /\ Snap[t] \in {"U", "C"}) => Ev.table[t] = "shouldrun",
